@@ -25,6 +25,9 @@ pub struct Scenario {
     /// dropped, the host stops being scheduled) instead of staying alive until Sim::crash
     #[serde(default)]
     pub finish_before_crash: bool,
+    /// in-Sim only: every crash is one `Sim::crash` call (and one `Sim::bounce` call) that matches all hosts
+    #[serde(default)]
+    pub crash_all: bool,
 }
 
 pub struct C07;
@@ -159,14 +162,14 @@ impl Property for C07 {
             guard_step(&mut gs, &op, &mo, &m);
             ops.push(op);
         }
-        Scenario { guarded, knobs, ops, in_sim: false, ops2: vec![], finish_before_crash: false }
+        Scenario { guarded, knobs, ops, in_sim: false, ops2: vec![], finish_before_crash: false, crash_all: false }
     }
 
     /// Fault enumeration: a crash after every prefix of the history.
     fn variants(base: &Scenario, _tier: Tier) -> Vec<Scenario> {
         (1..=base.ops.len())
             .filter(|k| !matches!(base.ops[*k - 1], FsOp::Crash))
-            .map(|k| Scenario { guarded: base.guarded, knobs: base.knobs.clone(), ops: base.ops[..k].to_vec(), in_sim: false, ops2: vec![], finish_before_crash: false })
+            .map(|k| Scenario { guarded: base.guarded, knobs: base.knobs.clone(), ops: base.ops[..k].to_vec(), in_sim: false, ops2: vec![], finish_before_crash: false, crash_all: false })
             // the same fault placements once more inside a running simulation (Sim::crash / Sim::bounce),
             // with the full history running on a second host with identical path names
             .chain((1..=base.ops.len()).filter(|k| !matches!(base.ops[*k - 1], FsOp::Crash) && (*k % 3 == base.ops.len() % 3)).map(|k| Scenario {
@@ -176,6 +179,7 @@ impl Property for C07 {
                 in_sim: true,
                 ops2: base.ops.clone(),
                 finish_before_crash: (k + base.ops.len()) % 2 == 0,
+                crash_all: base.knobs.fs_seed % 3 == 0,
             }))
             .collect()
     }
@@ -227,7 +231,7 @@ impl Property for C07 {
     fn shrink(sc: &Scenario) -> Vec<Scenario> {
         let mut out: Vec<Scenario> = c10::shrink_ops(&sc.ops)
             .into_iter()
-            .map(|ops| Scenario { guarded: sc.guarded, knobs: sc.knobs.clone(), ops, in_sim: sc.in_sim, ops2: sc.ops2.clone(), finish_before_crash: sc.finish_before_crash })
+            .map(|ops| Scenario { guarded: sc.guarded, knobs: sc.knobs.clone(), ops, in_sim: sc.in_sim, ops2: sc.ops2.clone(), finish_before_crash: sc.finish_before_crash, crash_all: sc.crash_all })
             .filter(|c| !sc.guarded || first_known_k(&c.ops, c.knobs.block_size > 0).is_none())
             .collect();
         if !sc.ops2.is_empty() {
@@ -240,7 +244,7 @@ impl Property for C07 {
             }
         }
         if sc.in_sim {
-            out.push(Scenario { in_sim: false, ops2: vec![], finish_before_crash: false, ..sc.clone() });
+            out.push(Scenario { in_sim: false, ops2: vec![], finish_before_crash: false, crash_all: false, ..sc.clone() });
             if sc.finish_before_crash {
                 out.push(Scenario { finish_before_crash: false, ..sc.clone() });
             }
@@ -523,7 +527,7 @@ pub(crate) fn run_in_sim(sc: &Scenario, keep: bool) -> Report {
             sim.host(format!("n{h}"), move || host_program(sh.clone()));
         }
         let mut consumed: Vec<usize> = vec![0; shared.len()];
-        let crash_all = shared.len() >= 2 && sc.knobs.fs_seed % 3 == 0;
+        let crash_all = shared.len() >= 2 && sc.crash_all;
         for _step in 0..2000 {
             if let Err(e) = sim.step() {
                 return Some(format!("Sim::step failed: {e}"));
